@@ -248,7 +248,7 @@ def walk(items):
             yield from walk(it["items"])
 
 
-def gen_program(r, n=None, feats=None, lo=3, hi=14, types=None, p_rev=1.0, p_nodefault=0.0, p_shuffle=0.3):
+def gen_program(r, n=None, feats=None, lo=3, hi=14, types=None, p_rev=1.0, p_nodefault=0.0, p_shuffle=0.3, p_bare=0.03):
     """Returns a structured program dict."""
     if n is None:
         n = r.randint(lo, hi)
@@ -275,6 +275,18 @@ def gen_program(r, n=None, feats=None, lo=3, hi=14, types=None, p_rev=1.0, p_nod
                 for m in ms:
                     block_end[m] = end
     member = set(block_end)
+    # "bare" helper options: no prompt, no default, no range, only `depends on` - their value comes from imply /
+    # set default alone (those paths read the direct dependencies directly)
+    bare = set()
+    for c in configs:
+        if c["name"] not in member and c["type"] in (BOOL, STRING) and not c.get("menuconfig") and r.random() < p_bare:
+            lower = [(d["name"], d["type"]) for d in configs if rank[d["name"]] < rank[c["name"]] and d["name"] not in member]
+            cnd = cond(r, lower)
+            if cnd:
+                c["prompt"], c["prompt_cond"], c["defaults"], c["ranges"], c["warning"] = None, None, [], [], None
+                if not c["depends"]:
+                    c["depends"] = [cnd]
+                bare.add(c["name"])
     for c in configs:
         if c["type"] != BOOL:
             continue
@@ -285,11 +297,15 @@ def gen_program(r, n=None, feats=None, lo=3, hi=14, types=None, p_rev=1.0, p_nod
         ln = [d for d in later if d["type"] != BOOL]
         if "select" in feats and lb and r.random() < 0.2:
             c["selects"].append([r.choice(lb)["name"], cond(r, lower) if r.random() < 0.4 else None])
-        if "imply" in feats and lb and r.random() < 0.15:
-            c["implies"].append([r.choice(lb)["name"], cond(r, lower) if r.random() < 0.4 else None])
+        lbb = [d for d in lb if d["name"] in bare]
+        if "imply" in feats and lb and r.random() < (0.6 if lbb else 0.15):
+            c["implies"].append([r.choice(lbb or lb)["name"], cond(r, lower) if r.random() < 0.4 else None])
         for kind, p in (("set", 0.18), ("setdefault", 0.15)):
             if kind in feats and ln and r.random() < p * p_rev:
                 tgt = r.choice(ln)
+                lnb = [d for d in ln if d["name"] in bare]
+                if lnb and kind == "setdefault":
+                    tgt = r.choice(lnb)
                 strs = [d for d in ln if d["type"] == STRING]
                 if strs and any(t == STRING for _, t in lower) and r.random() < 0.5:
                     tgt = r.choice(strs)  # make option-valued `set` (string only) reasonably frequent
@@ -439,7 +455,29 @@ def evolve(r, prog):
     nchg = r.choice([1, 1, 2, 3])
     log = []
     for _ in range(nchg):
-        k = r.choice(["default", "default", "default", "defcond", "range", "promptcond", "add", "remove", "choicedefault"])
+        k = r.choice(["default", "default", "default", "defcond", "range", "promptcond", "add", "remove", "remove", "choicedefault", "defaultpair",
+                      "defaultpair"])
+        if k == "defaultpair":
+            # both ends of a dependency change their default in the same upgrade (the dependent's stored default is
+            # only meaningful under the stored default of what it depends on)
+            edges = [(a, b) for a, b, _ in dep_edges(p) if a in tab and b in tab and not tab[a]["choice"] and not tab[b]["choice"]]
+            byname = {c["name"]: c for c in configs}
+            if edges:
+                a, b = r.choice(edges)
+                for nm in (a, b):
+                    c = byname.get(nm)
+                    if c is None:
+                        continue
+                    cur = c["defaults"][-1][0] if c["defaults"] else None
+                    v = lit(c["type"], r)
+                    if c["type"] == BOOL:
+                        v = "n" if cur == "y" else "y"
+                    if c["defaults"] and c["defaults"][-1][1] is None:
+                        c["defaults"][-1][0] = v
+                    else:
+                        c["defaults"].append([v, None])
+                log.append(("defaultpair", a, b))
+            continue
         if k == "choicedefault":
             chs = [it for it in walk(p["items"]) if it["k"] == "choice"]
             if not chs:
